@@ -463,7 +463,7 @@ fn plan_inner(prop: &str, tier: &str) -> Option<Plan> {
         }
         "C20" => {
             // (n, max_l, two_ops, shards)
-            let table: Vec<(usize, usize, bool, usize)> = if tier == "quick" { vec![(2, 2, false, 2), (3, 2, false, 8)] } else { vec![(2, 3, true, 8), (3, 2, true, 16), (3, 3, false, 16)] };
+            let table: Vec<(usize, usize, bool, usize)> = if tier == "quick" { vec![(2, 2, true, 4), (3, 2, false, 8)] } else { vec![(2, 3, true, 8), (3, 2, true, 16), (3, 3, false, 16)] };
             let mut jobs = Vec::new();
             for f in ALL {
                 for (n, l, two, sh) in &table {
